@@ -188,6 +188,7 @@ static void describe_buf(struct evbuffer *eb, char *out, size_t n)
  * for hundreds of executions */
 const char *__asan_default_options(void) { return "quarantine_size_mb=4:thread_local_quarantine_size_kb=256"; }
 
-static void quiet_log(int sev, const char *msg) { (void)sev; (void)msg; }
+/* warnings (expected "out of memory" notes) are dropped; fatal messages (failed EVUTIL_ASSERT) must reach stderr */
+static void quiet_log(int sev, const char *msg) { if (sev == EVENT_LOG_ERR) { fprintf(stderr, "[err] %s\n", msg); fflush(stderr); } }
 
 #endif
